@@ -199,8 +199,9 @@ CLAIMED["C14"] = (
 )
 CLAIMED["C12"] = (
     "metamorphic/compositional relations over generated documents (valid, near-valid mutants, conflict-"
-    "seeking, grammar-random) x rule sets (all, every single rule, random subsets in random order) x error "
-    "limits, with and without locations",
+    "seeking, grammar-random, introspection trees to list depth 5 with fragment cycles) x rule sets (all "
+    "specified rules, optionally the two custom rules, every single rule, random subsets in random order) x "
+    "error limits, with and without locations",
     "validate() with a rule set reports exactly the multiset union of what each rule reports alone with each "
     "rule's order preserved; the ordered messages are unchanged by reprinting, re-layout and added "
     "descriptions; a second call is identical and neither document nor schema is modified; with max_errors=n "
